@@ -103,7 +103,18 @@ def single_defs(fn_node):
             mutated.add(n.func.value.id)
         elif isinstance(n, ast.AugAssign) and isinstance(n.target, ast.Subscript) and isinstance(n.target.value, ast.Name):
             mutated.add(n.target.value.id)
-    out = {k: v for k, v in vals.items() if counts.get(k) == 1 and k not in params and k not in mutated}
+    def _path(e):
+        if isinstance(e, ast.Name):
+            return True
+        if isinstance(e, ast.Attribute):
+            return _path(e.value)
+        if isinstance(e, ast.Subscript):
+            sl = e.slice.operand if isinstance(e.slice, ast.UnaryOp) else e.slice
+            return isinstance(sl, ast.Constant) and _path(e.value)
+        return False
+    # (an alias of an existing object -- a name / attribute / constant-subscript path -- stays the same object)
+    out = {k: v for k, v in vals.items() if counts.get(k) == 1 and k not in params
+           and (k not in mutated or _path(v))}
     # a local assigned several times, always by the same expression, is as good as one definition
     multi = {}
     for n in walk_no_nested(fn_node):
